@@ -151,3 +151,8 @@ Proof.
 Qed.
 
 End Hist.
+
+(* helpers for the evaluated examples of Props/C02.v *)
+Definition adds (vs : list Z) : list (op (A:=Z)) := map (OpAdd 0) vs.
+Definition final_root (ops : list (op (A:=Z))) : option (tree (A:=Z)) :=
+  option_map (@root Z) (nth_error (fst (run_history Z.eqb zcompare ops)) 0).
